@@ -92,7 +92,6 @@ Record InvMon (c : config) (s : state) : Prop := {
            length (cur s) = nrun c;
   im_P : allP s;
   im_done : forall i, mon_at s i = MoDone -> ctx_done s = true;
-  im_absent : forall i, i < nrun c -> mon_at s i = MoAbsent -> stateable (spec c i) = false;
   im_entry : forall i, i < nrun c -> stateable (spec c i) = true -> stored (rn_at s i) -> smap_at s i <> None;
 }.
 
@@ -121,18 +120,24 @@ Qed.
 Lemma nth_repeat_d {A} (d x : A) n i : nth i (repeat x n) d = x \/ nth i (repeat x n) d = d.
 Proof. revert i; induction n as [|n IH]; intros [|i]; cbn; auto. Qed.
 
-Lemma init_mon c i : mon_at (init c) i = MoNot \/ mon_at (init c) i = MoAbsent.
+(* the monitors as Run() creates them *)
+Definition fresh_mon (c : config) : list mon_pc := map (fun r => if stateable r then MoNot else MoAbsent) (specs c).
+
+Lemma fresh_mon_cases c i : get MoAbsent (fresh_mon c) i = MoNot \/ get MoAbsent (fresh_mon c) i = MoAbsent.
 Proof.
-  unfold mon_at, get. cbn. generalize i. induction (specs c) as [|r l IH]; intros [|k]; cbn; auto.
+  unfold fresh_mon, get. generalize i. induction (specs c) as [|r l IH]; intros [|k]; cbn; auto.
   destruct (stateable r); auto.
 Qed.
 
-Lemma init_mon_absent c i : i < nrun c -> mon_at (init c) i = MoAbsent -> stateable (spec c i) = false.
+Lemma fresh_mon_absent c i : i < nrun c -> get MoAbsent (fresh_mon c) i = MoAbsent -> stateable (spec c i) = false.
 Proof.
-  unfold mon_at, get, spec, nrun. cbn. revert i. induction (specs c) as [|r l IH]; intros [|k] L; cbn in *; try lia.
+  unfold fresh_mon, get, spec, nrun. revert i. induction (specs c) as [|r l IH]; intros [|k] L; cbn in *; try lia.
   - destruct (stateable r); [discriminate|reflexivity].
   - intros H. apply IH; [lia|exact H].
 Qed.
+
+Lemma init_mon c i : mon_at (init c) i = MoAbsent.
+Proof. unfold mon_at. cbn. now apply get_map_const. Qed.
 
 Lemma InvMon_init c : InvMon c (init c).
 Proof.
@@ -140,10 +145,9 @@ Proof.
   - cbn. rewrite !repeat_length, !map_length. auto.
   - intros i. assert (Hq : pend (init c) i = []).
     { unfold pend, get. cbn. destruct (nth_repeat_d (@nil st) [] (nrun c) i); auto. }
-    rewrite Hq. destruct (init_mon c i) as [E|E]; rewrite E; constructor; try (intros; congruence); try discriminate;
+    rewrite Hq, (init_mon c i). constructor; try (intros; congruence); try discriminate;
       intros H; contradiction.
-  - intros i H. destruct (init_mon c i) as [E|E]; rewrite E in H; discriminate H.
-  - apply init_mon_absent.
+  - intros i H. rewrite (init_mon c i) in H. discriminate H.
   - intros i L _ H. exfalso. unfold rn_at, get in H. cbn in H.
     rewrite nth_repeat_lt' in H by exact L. exact H.
 Qed.
@@ -156,11 +160,10 @@ Lemma InvMon_frame c s s' :
   (forall i, i < nrun c -> stateable (spec c i) = true -> stored (rn_at s' i) -> stored (rn_at s i)) ->
   InvMon c s'.
 Proof.
-  intros [L Hp Hd Ha He] Em Eq Es Ec Hc Hr. constructor.
+  intros [L Hp Hd He] Em Eq Es Ec Hc Hr. constructor.
   - now rewrite Em, Eq, Es, Ec.
   - intros i. unfold mon_at, pend, smap_at, cur_at. rewrite Em, Eq, Es, Ec. apply Hp.
   - intros i H. unfold mon_at in H. rewrite Em in H. apply Hc, (Hd i H).
-  - intros i Li H. unfold mon_at in H. rewrite Em in H. now apply Ha.
   - intros i Li Hs H. unfold smap_at. rewrite Es. apply (He i Li Hs). now apply Hr.
 Qed.
 
@@ -180,13 +183,11 @@ Lemma InvMon_point c s s' i0 :
   (smap_at s i0 <> None -> smap_at s' i0 <> None) ->
   InvMon c s'.
 Proof.
-  intros [L Hp Hd Ha He] L1 L2 L3 L4 Hj Hi Hc Hd' Ha' Hr Hs. constructor.
+  intros [L Hp Hd He] L1 L2 L3 L4 Hj Hi Hc Hd' Ha' Hr Hs. constructor.
   - rewrite L1, L2, L3, L4. exact L.
   - eapply allP_upd; eauto.
   - intros i H. destruct (Nat.eq_dec i i0) as [->|N]; [auto|].
     destruct (Hj i N) as (E & _). rewrite E in H. apply Hc, (Hd i H).
-  - intros i Li H. destruct (Nat.eq_dec i i0) as [->|N]; [apply Ha; auto|].
-    destruct (Hj i N) as (E & _). rewrite E in H. now apply Ha.
   - intros i Li Hst H. destruct (Hr i Li Hst H) as [H'|[-> H']]; [|exact H'].
     destruct (Nat.eq_dec i i0) as [->|N]; [apply Hs, (He _ Li Hst H')|].
     destruct (Hj i N) as (_ & _ & E & _). rewrite E. now apply He.
@@ -287,6 +288,27 @@ Lemma L_tuple' c s s' i m' q' v' :
   InvMon c s'.
 Proof. apply L_tuple. Qed.
 
+(* one monitor leaves on ctx.Done *)
+Lemma L_mon_exit c s i :
+  InvMon c s -> mon_at s i <> MoAbsent -> ctx_done s = true ->
+  InvMon c (set_mon s (upd (mon s) i MoDone) (upd (mq s) i [])).
+Proof.
+  intros I Hm Hc. pose proof (im_len _ _ I) as (L1 & L2 & L3 & L4).
+  assert (Li : i < length (mon s)).
+  { unfold mon_at, get in Hm. destruct (Nat.lt_ge_cases i (length (mon s))) as [L|L]; [exact L|].
+    rewrite nth_overflow in Hm by exact L. congruence. }
+  eapply (InvMon_point c s _ i I); simp_st; rewrite ?upd_length; try reflexivity.
+  - intros j N. unfold mon_at, pend, smap_at, cur_at. simp_st.
+    rewrite !get_upd_other by congruence. auto.
+  - unfold mon_at, pend. simp_st. rewrite get_upd_same by exact Li.
+    constructor; cbn; intros; try discriminate; try contradiction.
+  - unfold ctx_done. simp_st. auto.
+  - intros _. unfold ctx_done in *. simp_st. exact Hc.
+  - unfold mon_at. simp_st. rewrite get_upd_same by exact Li. discriminate.
+  - intros k _ _ H. left. exact H.
+  - unfold smap_at. simp_st. auto.
+Qed.
+
 Lemma P_bcast l q v cu : P (MoBcast l) q v cu -> P (MoLoop l) q v cu.
 Proof. intros [A B C D E]. constructor; auto. discriminate. Qed.
 
@@ -381,6 +403,15 @@ Proof. intros [-> | ->]; constructor; cbn; intros; try discriminate; try contrad
 (* once the state-monitor manager has left, every monitor is gone for good *)
 Definition InvStm (s : state) : Prop := stm_done s = true -> forall i, dead (mon_at s i).
 
+Lemma fresh_mon_dead c : any_spec stateable c = false -> forall i, dead (get MoAbsent (fresh_mon c) i).
+Proof.
+  unfold any_spec, fresh_mon, get. intros H.
+  induction (specs c) as [|r l IH]; intros i.
+  - right. destruct i; reflexivity.
+  - cbn [existsb] in H. apply orb_false_iff in H as [Hr Hl]. cbn [map]. rewrite Hr.
+    destruct i as [|i]; [right; reflexivity|]. cbn [nth]. apply IH. exact Hl.
+Qed.
+
 Lemma InvStm_step c s l s' : InvStm s -> step c s l = Some s' -> InvStm s'.
 Proof.
   intros IS H. unfold step in H.
@@ -392,16 +423,12 @@ Proof.
   all: try (intros _ k; destruct (get_mark_mon (mon s) k) as [E|E]; [right|left]; exact E).
   all: try (intros T; match goal with E : negb (stm_done _) && _ = true |- _ =>
               apply andb_true_iff in E as [E _]; apply negb_true_iff in E; congruence end).
+  (* Run() creates the monitors *)
+  all: try (intros T k; apply negb_true_iff in T; exact (fresh_mon_dead c T k)).
 Qed.
 
 Lemma InvStm_init c : InvStm (init c).
-Proof.
-  unfold InvStm, mon_at, init, any_spec. cbn [stm_done mon]. intros H i. apply negb_true_iff in H.
-  unfold get. revert i. induction (specs c) as [|r l IH]; intros i.
-  - right. destruct i; reflexivity.
-  - cbn [existsb] in H. apply orb_false_iff in H as [Hr Hl]. cbn [map]. rewrite Hr.
-    destruct i as [|i]; [right; reflexivity|]. cbn [nth]. apply IH. exact Hl.
-Qed.
+Proof. intros _ i. right. apply init_mon. Qed.
 
 Lemma InvStm_reachable c s : reachable_sup c s -> InvStm s.
 Proof. apply sup_inv; [apply InvStm_init|apply InvStm_step]. Qed.
@@ -418,6 +445,18 @@ Proof.
   destruct l; cbn [step0] in H; unfold start_shutdown, store_state in H;
     step_cases H; inversion H; subst; clear H.
   all: try (frame_tac I; fail).
+  (* a monitor leaves on ctx.Done *)
+  all: try (apply L_mon_exit; [exact I|match goal with E : mon_at _ _ = _ |- _ => rewrite E; discriminate end|assumption]; fail).
+  (* Run() creates the monitors: none has subscribed *)
+  all: try (match goal with |- InvMon _ (set_main (start_managers _ _) (MLaunch 0)) => idtac end;
+            constructor; simp_st;
+            [rewrite map_length; unfold nrun in *; auto
+            |intros k; unfold mon_at, pend, smap_at, cur_at; simp_st;
+             destruct (fresh_mon_cases c k) as [E|E]; unfold fresh_mon in E; rewrite E;
+             constructor; cbn; intros; try discriminate; try contradiction
+            |intros k Hk; unfold mon_at in Hk; simp_st;
+             destruct (fresh_mon_cases c k) as [E|E]; unfold fresh_mon in E; rewrite E in Hk; discriminate Hk
+            |exact (im_entry _ _ I)]; fail).
   all: repeat match goal with E : _ && _ = true |- _ => apply andb_true_iff in E as [? ?] end.
   all: repeat match goal with E : (_ =? _) = true |- _ => apply Nat.eqb_eq in E; subst end.
   all: repeat match goal with E : (_ <? _) = true |- _ => apply Nat.ltb_lt in E end.
@@ -462,7 +501,6 @@ Proof.
     + rewrite overlay_length. auto.
     + intros k. unfold mon_at, pend, smap_at, cur_at. simp_st. apply P_dead'. apply (IS T k).
     + intros k Hk. unfold ctx_done in *. simp_st. apply (im_done _ _ I k Hk).
-    + intros k Lk Hk. apply (im_absent _ _ I k Lk Hk).
     + intros k Lk Hs Hr. unfold smap_at. simp_st. apply overlay_keeps_some. apply (im_entry _ _ I k Lk Hs Hr).
   (* ---- the monitor ---- *)
   - (* MonSub *)
@@ -562,7 +600,6 @@ Proof.
       rewrite (get_map_const [] (fun _ => []) (mq s) k []) by reflexivity.
       apply P_dead. destruct (get_mark_mon (mon s) k) as [E|E]; rewrite E; intros X; exact X.
     + intros k _. unfold ctx_done in *. simp_st. exact Hc.
-    + intros k Lk Hk. apply (im_absent _ _ I k Lk). unfold mon_at in *. simp_st. now apply get_mark_mon_absent.
     + intros k Lk Hs Hr. apply (im_entry _ _ I k Lk Hs Hr).
 Qed.
 
@@ -572,6 +609,42 @@ Proof.
   apply sup_inv.
   - split; [apply InvStm_init|apply InvMon_init].
   - intros s l s' [A B] St. split; [eapply InvStm_step; eassumption|eapply InvMon_step; eassumption].
+Qed.
+
+(* ---- once Run() has created the managers, a missing monitor means: not Stateable ---- *)
+Definition InvMonAbs (c : config) (s : state) : Prop :=
+  mgrs_on s -> forall i, i < nrun c -> mon_at s i = MoAbsent -> stateable (spec c i) = false.
+
+Lemma InvMonAbs_step c s l s' :
+  InvNew c s -> InvSdAll s -> InvMonAbs c s -> step c s l = Some s' -> InvMonAbs c s'.
+Proof.
+  intros (N1 & N2 & N3) ISA IA H. unfold step in H. unfold InvMonAbs, mgrs_on, mon_at, pre_run in *.
+  destruct l; cbn [step0] in H; unfold start_shutdown, store_state in H;
+    step_cases H; inversion H; subst; clear H; simp_st.
+  all: try exact IA.
+  all: try (intros [_ X]; discriminate X).
+  (* a monitor moved: it is not absent afterwards, the others are as before *)
+  all: try (intros Hon k0 Lk Hk; apply (IA Hon k0 Lk);
+            first [ rewrite get_upd_eq in Hk;
+                    match type of Hk with (if ?b then _ else _) = _ => destruct b; [discriminate Hk|exact Hk] end
+                  | now apply get_mark_mon_absent ]; fail).
+  (* Run() is entered *)
+  all: try (intros _ k0 Lk Hk; exact (fresh_mon_absent c k0 Lk Hk)).
+  all: try (intros [_ X]; apply IA; split; [reflexivity|exact X]).
+  all: try (intros [_ X] ? ? ?; exfalso;
+            assert (Y : sd_all (aux s) = true) by (apply ISA; [congruence|apply N2; right; reflexivity]);
+            congruence).
+Qed.
+
+Lemma InvMonAbs_reachable c s : reachable_sup c s -> InvMonAbs c s.
+Proof.
+  intros Hr.
+  assert (G : InvNew c s /\ InvSdAll s /\ InvMonAbs c s).
+  { revert s Hr. apply sup_inv.
+    - split; [apply InvNew_init|]. split; [intros X; contradiction|]. intros [X _]; discriminate X.
+    - intros s0 l s1 (A & B & C) Hs. split; [eapply InvNew_step; eassumption|].
+      split; [eapply InvSdAll_step; eassumption|eapply InvMonAbs_step; eassumption]. }
+  apply G.
 Qed.
 
 (* ---- C06: convergence at quiescence ---- *)
@@ -620,7 +693,18 @@ Proof.
   pose proof (im_entry _ _ I i Li Hst (ran_stored _ Hran)) as Hent.
   destruct (smap_at s i) as [x|] eqn:Ex; [|congruence]. f_equal.
   destruct (mon_at s i) eqn:Em; try contradiction; try congruence.
-  - (* absent: not Stateable *) pose proof (im_absent _ _ I i Li Em). congruence.
+  - (* absent: not Stateable (Run() was entered with the launch gate open: a runnable has been started) *)
+    assert (Hon : mgrs_on s).
+    { split.
+      - destruct (run_entered (aux s)) eqn:E; [reflexivity|]. exfalso.
+        destruct (InvNew_reachable _ _ Hre) as (N1 & _ & N3).
+        pose proof (InvGate_reachable _ _ Hre) as IG.
+        apply (ran_not_started _ Hran). apply N1; [exact (N3 E)|]. rewrite (ig_len _ _ IG). exact Li.
+      - destruct (sd_all (aux s)) eqn:E; [|reflexivity]. exfalso.
+        pose proof (InvGate_reachable _ _ Hre) as IG.
+        apply (ran_not_started _ Hran). apply launched_zero; [exact (sd_all_launched _ _ Hre E)|].
+        rewrite (ig_len _ _ IG). exact Li. }
+    pose proof (InvMonAbs_reachable _ _ Hre Hon i Li Em). congruence.
   - (* first value still pending: impossible when quiescent *)
     exfalso. apply (p_first _ _ _ _ HP eq_refl). exact Hq.
   - (* in its loop, nothing pending *)
